@@ -164,6 +164,7 @@ def run(tier, seed, replay=None):
                 starts_of_others = [m[1][0] for j, m in enumerate(base[1]) if j != k]
                 # the name token is on the start line, no other function starts there, and the line end is not inside a token
                 if any(t.value == nm and t.is_name() for t in on_line) and sl not in starts_of_others \
+                        and not any(t.is_comment() for t in on_line) \
                         and not any("\n" in t.value and t.location.line <= sl < t.location.line + t.value.count("\n") for t in toks) \
                         and not t0.split("\n")[sl - 1].rstrip().endswith("\\"):
                     cands.append(k)
